@@ -102,7 +102,9 @@ TypeStr(n) == CASE n[1] = "val" -> "int64" [] n[1] = "fn" -> "func"
 Join(a, b) == IF a = "no" \/ b = "no" THEN "no"
               ELSE IF a = "any" \/ b = "any" THEN "any" ELSE "yes"
 
-MemberVis(c) == CASE c = "U" -> "yes" [] c = "l" -> "no" [] OTHER -> "any"
+(* "private unless capitalised" (the property's title): a member whose first rune is not an    *)
+(* upper-case letter -- lower-case, or no letter at all such as _x -- is private                 *)
+MemberVis(c) == CASE c = "U" -> "yes" [] OTHER -> "no"
 KeyVis(c)    == IF c = "U" THEN "yes" ELSE KeyRule
 (* a nested package may be traversed under any name; reading or            *)
 (* overwriting the package value itself under a non-capitalised name is    *)
@@ -143,7 +145,7 @@ Defined(t, p) == \A i \in 1..Len(p) : NodeAt(t, SubSeq(p, 1, i)) # None
 PrivateHop(t, p, i) ==
     LET cont == NodeAt(t, SubSeq(p, 1, i - 1))
         n == NodeAt(t, SubSeq(p, 1, i))
-    IN cont[1] = "pkg" /\ n[1] \in {"val", "fn", "hash"} /\ Class(p[i]) = "l"
+    IN cont[1] = "pkg" /\ n[1] \in {"val", "fn", "hash"} /\ Class(p[i]) # "U"
 CapitalHop(t, p, i) ==
     LET n == NodeAt(t, SubSeq(p, 1, i))
     IN Class(p[i]) = "U" \/ (n[1] = "pkg" /\ i < Len(p))
